@@ -292,18 +292,48 @@ pub fn run(prop: &str, tier: &str, replay: Option<&str>) -> i32 {
     {
         let mut lens: Vec<usize> = (0..=300).collect();
         lens.extend([65534, 65535, 65536, 65537, 70000]);
-        let cases: Vec<(usize, usize)> = lens.iter().flat_map(|l| (0..4usize).map(move |w| (*l, w))).collect();
+        let places = ["CN", "dNSName", "custom extension", "CRL DP URI", "rfc822Name", "URI", "otherName value", "name-constraint dNSName", "name-constraint directoryName value", "pre-specified key identifier", "O as BMPString", "O as UniversalString", "custom extension OID arcs", "EKU OID arcs"];
+        // a pre-specified key identifier beyond what conformant parameters use is still caller input; C05 keeps to <= 20 there
+        let cases: Vec<(usize, usize)> = lens.iter().flat_map(|l| (0..places.len()).map(move |w| (*l, w))).filter(|c| !(c.1 >= 12 && c.0 > 300) && !(conformant_only && c.1 == 9 && c.0 > 20)).collect();
         let ctx = stub_self_ctx(Alg::Ed25519, 1);
-        let sec = Section::new("sweep/sizes", "every length 0..=300 and 65534..=65537, 70000 (short-form, 0x81, 0x82 and 0x83 DER lengths) for a CN value, a dNSName, a custom extension's content and a CRL distribution point URI");
-        run::sweep_cases(&sec, &cases, &|c| format!("len={} where={}", c.0, ["CN", "dNSName", "custom extension", "CRL DP URI"][c.1]), &|c| {
+        let ictx = stub_issuer_ctx(Alg::EcP256, &DnSpec::cn("issuer"), &KeyIdSpec::Pre(vec![7; 20]), Alg::Ed25519, "pair");
+        let sec = Section::new("sweep/sizes", &format!("every length 0..=300 and 65534..=65537, 70000 (short-form, 0x81, 0x82 and 0x83 DER lengths) in {} places: {}", places.len(), places.join(", ")));
+        run::sweep_cases(&sec, &cases, &|c| format!("len={} where={}", c.0, places[c.1]), &|c| {
             let mut st = CertState::default();
+            let n = c.0;
             match c.1 {
-                0 => st.dn = DnSpec(vec![(DnTypeSpec::O, StrKind::Utf8, "o".into()), (DnTypeSpec::Cn, StrKind::Utf8, "n".repeat(c.0))]),
-                1 => st.sans = vec![SanSpec::Dns("d".repeat(c.0)), SanSpec::Ip(vec![1, 2, 3, 4])],
-                2 => st.custom_exts = vec![CustomExtSpec { oid: vec![1, 2, 3, 4], critical: false, content: refmodel::der::octet(&vec![0x5a; c.0]), acme: false }],
-                _ => st.crl_dps = vec![vec![format!("http://x/{}", "u".repeat(c.0))]],
+                0 => st.dn = DnSpec(vec![(DnTypeSpec::O, StrKind::Utf8, "o".into()), (DnTypeSpec::Cn, StrKind::Utf8, "n".repeat(n))]),
+                1 => st.sans = vec![SanSpec::Dns("d".repeat(n)), SanSpec::Ip(vec![1, 2, 3, 4])],
+                2 => st.custom_exts = vec![CustomExtSpec { oid: vec![1, 2, 3, 4], critical: false, content: refmodel::der::octet(&vec![0x5a; n]), acme: false }],
+                3 => st.crl_dps = vec![vec![format!("http://x/{}", "u".repeat(n))]],
+                4 => st.sans = vec![SanSpec::Email("m".repeat(n))],
+                5 => st.sans = vec![SanSpec::Dns("first.example".into()), SanSpec::Uri("u".repeat(n))],
+                6 => st.sans = vec![SanSpec::Other(vec![1, 3, 6, 1, 4, 1, 311, 20, 2, 3], "v".repeat(n))],
+                7 => {
+                    st.is_ca = IsCaSpec::Unconstrained;
+                    st.nc = Some(NcSpec { permitted: vec![SubtreeSpec::Dns("p".repeat(n))], excluded: vec![SubtreeSpec::Email("e".repeat(n))] });
+                }
+                8 => {
+                    st.is_ca = IsCaSpec::Unconstrained;
+                    st.nc = Some(NcSpec { permitted: vec![SubtreeSpec::Dir(DnSpec(vec![(DnTypeSpec::O, StrKind::Utf8, "d".repeat(n))]))], excluded: vec![] });
+                }
+                9 => {
+                    st.is_ca = IsCaSpec::Unconstrained;
+                    st.key_id = KeyIdSpec::Pre(vec![0x81; n]);
+                    st.use_aki = true;
+                }
+                10 => st.dn = DnSpec(vec![(DnTypeSpec::O, StrKind::Bmp, "b".repeat(n))]),
+                11 => st.dn = DnSpec(vec![(DnTypeSpec::O, StrKind::Universal, "u".repeat(n))]),
+                12 => st.custom_exts = vec![CustomExtSpec { oid: [1u64, 3].iter().cloned().chain((0..n as u64).map(|i| 200 + i % 7)).collect(), critical: false, content: vec![5, 0], acme: false }],
+                _ => st.ekus = vec![EkuSpec::ServerAuth, EkuSpec::Other([1u64, 3].iter().cloned().chain((0..n as u64).map(|i| 16384 + i % 3)).collect())],
             }
-            judge.judge(&st, &ctx)
+            let mut out = judge.judge(&st, &ctx);
+            if c.1 == 9 {
+                let o2 = judge.judge(&st, &ictx);
+                out.findings.extend(o2.findings);
+                out.transitions += o2.transitions;
+            }
+            out
         });
         rep.add(sec);
     }
